@@ -21,26 +21,50 @@ warnings.filterwarnings("ignore")
 PROP = "C18"
 MANIFEST = {
     "text": "Lean 4 theorems: separable batched operations (f xs = xs.map f1) give every sample the same output alone or with arbitrary "
-            "companions at any position and batch size; separability is closed under composition and element-wise combination; every "
-            "reduction of any table whose entries avoid the batch axis is separable for any combining function (the table generated "
-            "from the normalisation code and coil reductions of /repo satisfies the predicate by `decide`), a reduction over axis 0 is "
-            "not; a module whose methods never assign to self.* answers repeated calls identically after any history; coil sums, "
-            "reduce/expand and expand/reduce data-consistency blocks are invariant/equivariant under any coil permutation (any "
-            "commutative monoid, any coil count).",
-    "note": "Trusted: Lean kernel (+propext, Classical.choice, Quot.sound), the AST scanners (reduction-axis table, self-assignment "
-            "table), torch semantics of reshape/reduction axes (validated by the `persample` correspondence). Whole networks are "
-            "covered by the theorems only through the closure lemmas over their primitives (conv, element-wise ops, eval-mode batch "
-            "norm, instance norm are per-sample by construction of torch); rounding differences between batched and single kernels and "
-            "the whole-network behaviour are tolerance-checked on the real zoo (1e-5 relative), not proved. Train-mode batch norm is "
-            "outside the property.",
-    "technique": "Lean 4 proof (list induction, Mathlib Equiv.sum_comp) + generated structural tables discharged by decide + exact "
-                 "integer differential correspondence of the normalisation / coil-combination functions + batch-vs-single oracle",
+            "companions at any position and batch size; separability is closed under composition, element-wise combination and "
+            "cat/stack along a non-batch axis. Whole forward passes: every operation of /repo/direct whose meaning depends on which axis "
+            "is the batch (reductions with their axes, cat/stack/split/select/unsqueeze/softmax/flip/... with their axis, permute and "
+            "transpose literals, the form of every reshape/view/flatten, subscripts at the batch position, functionals with batch "
+            "statistics, whole-tensor queries, arithmetic on the batch size) is translated, function by function, into a primitive "
+            "table; a runtime trace of every zoo model gives the functions each model executes; a decidable judgement (Prim.ok / "
+            "FuncRow.ok) is decided on the generated tables, and `model_separable` proves that ANY data-flow graph over the primitives "
+            "of a model whose row passes is separable under every sound interpretation; `stdInterp_sound` proves the standard "
+            "interpretation sound (operations along any axis but 0, permutes as products of adjacent swaps that never touch axis 0, "
+            "transposes, flattens; rejected call sites denote the operation along the batch axis). The batch*coil fold of MultiCoil: "
+            "un-fold(fold) = id, fold/map/un-fold = per-sample per-coil map (so batch independent), the index arithmetic (row r belongs "
+            "to sample r/c; a trailing reduction of a folded row stays inside its sample), and the coil-major un-fold as a mixing "
+            "counter-model. State: a call that performs no write to attributes, buffers, class attributes, module-level names, memo "
+            "tables or process-wide switches answers any history (also interleaved with a second instance) as a function of its input; "
+            "the effect table (10 kinds of writes/reads, incl. mutable defaults, in-place updates of parameters, grad-mode reads) is "
+            "decided empty up to a listed allowance. Coil order: every expression built from per-coil maps, element-wise combinations "
+            "of coil tensors, broadcasts of images and coil sums is equivariant (coil-valued) / invariant (image-valued) under any coil "
+            "permutation; reduce_operator and the DC step the driver executes are such expressions; selecting a coil by position or "
+            "convolving over coils-as-channels is not (witnesses).",
+    "note": "Trusted: Lean kernel (+propext, Classical.choice, Quot.sound); the AST scanners (c18.py, c18_prims.py) and the sys.setprofile "
+            "trace of the zoo (a call site the scanner does not recognise as axis-dependent is not judged; 1 call site with an axis "
+            "expression it cannot resolve is listed in Gen as unresolvedPrims); torch semantics of axes / permute / reshape (validated "
+            "on every run by the `persample`, `primok`, `permute`, `along`, `mergemap`, `unmerge` correspondences on integer tensors); "
+            "conv / element-wise / instance-norm / eval-mode batch-norm kernels are per-sample (torch contract; enter the closure as "
+            "`Prog.kern`); negative axes are assumed to address trailing axes of operands of rank > |axis| (hypothesis of "
+            "stdInterp_sound). NOT proved: that a forward's data flow only uses the scanned primitives (tie = scanner + trace), float "
+            "rounding differences between batched and single kernels, and the numerical behaviour of whole networks: these are "
+            "tolerance-checked on the real zoo (1e-5 relative). ConjGradNet models are excluded from the `ok` rows (known finding: "
+            "batch-mean stopping test). Which zoo models use coil operations outside the coil-expression language is decided by the "
+            "oracle (all recon models, all 6 orders of 3 coils in the thorough tier) and the coilOrderOps table, not by a per-model "
+            "proof. Train-mode batch norm is outside the property.",
+    "technique": "Lean 4 proof (list induction, insertion-sort swap decomposition, mutual structural induction over coil expressions, "
+                 "Mathlib Equiv.sum_comp) + generated per-function / per-model structural tables discharged by decide +kernel + exact "
+                 "integer differential correspondence of normalisation, coil combination, axis semantics, permute, MultiCoil fold + "
+                 "batch-vs-single / history / coil-order oracle on the real zoo",
 }
 TRUSTED = [
     "Lean 4.33 kernel; axioms ⊆ {propext, Classical.choice, Quot.sound}",
-    "harness/translate recipes c18: reduction-axis scanner, global-reduction scanner, self-assignment scanner",
-    "torch: reshape is row-major, reductions over axes other than 0 act per sample (checked empirically by the `persample` cases)",
+    "harness/translate recipes c18 + c18_prims: reduction-axis scanner, primitive scanner (8 families), effect scanner (10 kinds), "
+    "norm-layer constructor scanner, sys.setprofile trace of one evaluation of every zoo model (which functions of /repo/direct it executes)",
+    "torch: reshape is row-major, reductions / along-axis operations over axes other than 0 act per sample, permute = product of axis "
+    "swaps (checked on every run by the persample / primok / along / permute / mergemap / unmerge correspondence cases)",
     "conv / element-wise / instance-norm / eval-mode batch-norm kernels are per-sample (torch); checked on the zoo by the oracle only",
+    "the shared zoo (harness/props/zoo_common.py) + C18's MultiCoil entries; `Entry.model()` weights",
 ]
 ASSUMPTIONS = [
     "group statistics are compared as exact integers (n, sum, sum (n x - S)^2) on integer-valued float64 tensors; groups of one "
@@ -48,12 +72,18 @@ ASSUMPTIONS = [
     "batch-vs-single tolerance 1e-5 relative to the output scale (float32, oneDNN disabled so that most models are bit-identical; "
     "1e-4 for KIKINet with a normalised U-Net on k-space, 1e-3 for ConjGradNet whose CG tolerance bounds its own accuracy)",
     "coil-permutation tolerance 1e-4 (float32 coil sums are re-ordered; measured rounding effect <= 1.3e-5)",
+    "history checks (train()->eval() toggle, autograd on, second instance) are bit-exact; non-contiguous inputs and batch order use the "
+    "entry tolerance",
+    "negative axes address trailing axes of operands of rank > |axis| (e.g. `-1` on a rank-1 tensor would be the batch axis)",
     "evaluation mode only",
 ]
 RULE = ("integer batches (b 1..4, c, h, w small, groups dividing) for the normalisation functions; Gaussian-integer coil stacks "
-        "(1..5 coils) for reduce/expand/standardise; the whole zoo in eval mode with companions of magnitude 1, 1e4, 1e-4 at every "
-        "batch position, repeated evaluation, all/ random coil permutations. non-trivial = batch >= 2 or coils >= 2; distinct = "
-        "distinct protocol line / (entry, size, batch, position, scale)")
+        "(1..5 coils) for reduce/expand/standardise; random call-site records (family, form, axes in range, rank 2..5) for the "
+        "judgement vs torch on 4-sample integer batches; random shapes/permutations for permute, along-axis actions, MultiCoil "
+        "fold/loop with an integer affine model; the whole zoo (+ MultiCoil fold/loop entries) in eval mode with companions of "
+        "magnitude 1, 1e4, 1e-4, 0 and copies of the sample at every batch position, repeated evaluation, train->eval toggle, "
+        "autograd on, non-contiguous input, a second instance, batch order (thorough), all / two coil permutations. non-trivial = "
+        "batch >= 2 or coils >= 2; distinct = distinct protocol line / (entry, size, batch, position, scale)")
 
 EXTRA_LEAN_MODULES = ["DirectVerif.Lemmas.C18Prims", "DirectVerif.Lemmas.C18Coil"]
 
